@@ -630,13 +630,15 @@ class Munkres:
 
     def __find_smallest(self):
         """Find the smallest uncovered value in the matrix."""
-        minval = sys.maxsize
+        # Start from the first uncovered value rather than from sys.maxsize, so that
+        # costs larger than sys.maxsize are handled too
+        minval = None
         for i in range(self.n):
             for j in range(self.n):
                 if (not self.row_covered[i]) and (not self.col_covered[j]):
-                    if self.C[i][j] is not DISALLOWED and minval > self.C[i][j]:
+                    if self.C[i][j] is not DISALLOWED and (minval is None or minval > self.C[i][j]):
                         minval = self.C[i][j]
-        return minval
+        return sys.maxsize if minval is None else minval
 
 
     def __find_a_zero(self, i0=0, j0=0):
